@@ -148,6 +148,7 @@ type Machine struct {
 	initProblems []string
 	tl           *threadLayer
 	ranges map[*sym.Term]urange
+	marshalled map[string]marshalRec
 
 	// tables
 	intrinsics map[string]intrinsic
@@ -290,6 +291,7 @@ func (m *Machine) RunPath(entry *ssa.Function, item workItem) (res *PathResult) 
 	m.watchMaps = nil
 	m.depth = 0
 	m.ranges = nil
+	m.marshalled = nil
 	m.res = &PathResult{}
 	res = m.res
 	m.slv.Reset()
